@@ -4,7 +4,7 @@ task and the model request for the same case, and compare the outcomes.
 """
 from fractions import Fraction
 
-from common import close, frac
+from common import close, frac, TOL
 import gen
 
 EXACT_BITS = 53
@@ -84,10 +84,16 @@ def compare(impl, model):
     exact = model.get('bits', 9999) <= EXACT_BITS
     mc = model_cells(model)
     ic = gen.cells_dict(impl['cells'])
+    # tolerance domain: rounding errors of a row scale with the largest weight of that row (diverging recurrences
+    # produce rows with entries of 1e9 next to entries of 1): the bound is 2^-30 * max(1, max |row|)
+    row_scale = {}
+    if not exact:
+        for (o, _c), v in mc.items():
+            row_scale[o] = max(row_scale.get(o, Fraction(1)), abs(v))
     for k in set(mc) | set(ic):
         mv = mc.get(k, Fraction(0))
         iv = ic.get(k, Fraction(0))
-        if not close(iv, mv, exact):
+        if not (close(iv, mv, exact) or (not exact and abs(iv - mv) <= TOL * row_scale.get(k[0], Fraction(1)))):
             return 'weight[%r][%r]: implementation %s, model %s (%s)' % (
                 k[0], k[1], float(iv), float(mv), 'exact domain' if exact else 'tolerance 2^-30')
     if 'outcomes' in model:
